@@ -85,6 +85,11 @@ pub static mut UNDEF: u8 = 0;
 /// the assembler refuses the program
 pub static mut PRE_ERR: bool = false;
 pub static mut LEN: usize = 0;
+/// the last instruction the assembler emitted is the text "hlt" (a program that ends with its own hlt)
+pub static mut LAST_IS_HLT: bool = false;
+pub fn set_last_is_hlt(b: bool) {
+    unsafe { LAST_IS_HLT = b };
+}
 /// result kind / interrupt number of the FIRST executed instruction when the harness fixes them (255 = not fixed)
 pub static mut FIX_KIND: u8 = 255;
 pub static mut FIX_INT: u8 = 0;
@@ -119,6 +124,7 @@ pub fn reset(sc: Scenario) {
         DATA_CALLS = 0;
         LAST = None;
         FIX_KIND = 255;
+        LAST_IS_HLT = false;
         VM_TOUCHED = false;
         EXITED = false;
     }
@@ -133,7 +139,11 @@ pub fn exited() -> bool {
 
 /// length of the text of instruction i as the stubs see it (4 + i; the appended "hlt" has 3)
 pub fn code_len(i: usize) -> usize {
-    4 + i
+    if unsafe { LAST_IS_HLT } && i + 1 == unsafe { N } {
+        3
+    } else {
+        4 + i
+    }
 }
 const CODE_TEXT: [&str; 4] = ["aaaa", "bbbbb", "cccccc", "ddddddd"];
 const DATA_TEXT: [&str; 2] = ["DDDDDDDD", "EEEEEEEEE"];
@@ -180,7 +190,8 @@ pub fn preprocess(_input: &str) -> Result<(Lh, PreprocessorContext, Preprocessor
     let mut out = PreprocessorOutput::default();
     let mut i = 0;
     while i < n {
-        out.code.push(CODE_TEXT[i].to_owned());
+        let last_hlt = unsafe { LAST_IS_HLT } && i + 1 == n;
+        out.code.push(if last_hlt { "hlt".to_owned() } else { CODE_TEXT[i].to_owned() });
         ctx.mapper.add_entry(sc.pos[i]);
         i += 1;
     }
